@@ -55,6 +55,7 @@ StringResult(page, p) == CASE page = "ok" -> [ok |-> TRUE, out |-> "page:ok"]
                            [] page = "errpage" -> [ok |-> TRUE, out |-> "page:custom-error"]
                            [] page \in {"row1", "row2"} -> [ok |-> TRUE, out |-> "page:row"]   \* data: two struct types that share a name
                            [] page \in {"polyS", "polyA", "polyI"} -> [ok |-> TRUE, out |-> "page:poly"]   \* one template, receivers of three types
+                           [] page = "okbad" -> [ok |-> FALSE, err |-> "unsupported value in the data", at |-> p]   \* page ok with data that cannot be converted
                            [] page = "floatdec" -> [ok |-> TRUE, out |-> "page:floatdec"]       \* number literals under ++ / --
                            [] page \in {"lastA", "lastB", "lastC"} -> [ok |-> TRUE, out |-> "page:lastof"]        \* one template, arrays of three lengths
                            [] page \in {"dotS", "dotM"} -> [ok |-> TRUE, out |-> "page:dotcase"]           \* one template, a struct / a map behind the same property names
